@@ -12,6 +12,14 @@ are recorded as observations only.
 Workload: verif/gen_c13.py (valid messages from structure-aware generators,
 every single-field mutation, random strings/flips); thorough adds a libFuzzer
 session per parser group whose artifacts are triaged through the same driver.
+
+Execution: the bulk of the cases goes through the driver's --fork mode (one
+driver process per chunk; an out-of-bounds READ report marks the case and the
+child continues, any other report ends the child and the parent forks a new
+one) because on this tree a large share of hostile packets ends in a report.
+Keys are taken from the first report of a case; every key that is reported is
+re-confirmed in a fresh process through the plain case protocol, which is also
+what replay() uses.
 """
 import json
 import os
@@ -335,6 +343,27 @@ def evaluate(part, vname, exe, label, kind, f, payload, r, widx, rerun_hang=True
     return "%x/%s" % (o["accept"], o["rcs"][:4].hex())
 
 
+def _layout_dependent(r, f):
+    """True when an ASan report is not about a block this case allocated itself (the message or
+    one of its exact-size argument/output buffers): a wild or far access whose classification
+    depends on what happens to lie there in the long-lived --fork process."""
+    t = r.report or ""
+    if r.kind != "asan":
+        return False
+    if "SEGV on unknown address" in t or "heap-use-after-free" in t:
+        return True
+    m = re.search(r"is located (\d+) bytes (?:to the (?:left|right) of|before|after|inside of) (\d+)-byte region", t)
+    if not m:
+        return False
+    own = set()
+    for v in f.values():
+        n = len(v) if isinstance(v, (bytes, bytearray)) else (v if isinstance(v, int) else None)
+        if n is not None:
+            own.update((n, n + 1, max(n, 1)))
+    own.update((64, 128))  # sdp field arrays (8 pointers / sizes)
+    return int(m.group(1)) > 64 or int(m.group(2)) not in own
+
+
 def run_chunk(part, builds, cases, widx):
     payloads = [gen.pack(label, f) for label, _k, f in cases]
     part_count(part, "packets", len(cases))
@@ -344,9 +373,10 @@ def run_chunk(part, builds, cases, widx):
         short = part["_hangs"] >= HANGS_BEFORE_SHORT_ALARM
         res = run_cases(exe, payloads, alarm_ms=100 if short else None)
         for (label, kind, f), payload, r in zip(cases, payloads, res):
-            if isinstance(r, Crash) and r.kind == "asan" and "SEGV on unknown address" in (r.report or ""):
-                # whether an over-read lands in a red zone or in an unmapped page depends on the heap
-                # layout of the long-lived --fork process; judge the case in a fresh process (as replay does)
+            if isinstance(r, Crash) and _layout_dependent(r, f):
+                # where a wild or far access lands (red zone, neighbouring/freed block, unmapped page)
+                # depends on the heap layout of the long-lived --fork process; judge the case in a
+                # fresh process (as replay does) so that the key is reproducible
                 r2 = common.run_cases(exe, [payload], env_extra=ENV_PLAIN)[0]
                 if isinstance(r2, Crash) and r2.kind in ("asan", "ubsan"):
                     r = r2
@@ -557,6 +587,10 @@ def run(tier):
     if runs > 0:
         parts += list(common.parallel(_fuzz_job, [(g, runs, builds) for g in range(len(FUZZ_GROUPS))]))
 
+    if runs > 0:
+        for gname in FUZZ_GROUPS:
+            bad = any(p["counters"].get("fuzz.%s.not_selectable" % gname) for p in parts)
+            report.builds["clang-O1-asu-libfuzzer-" + gname] = "not_selectable" if bad else "ok"
     best = {}
     modes = {}
     for part in parts:
@@ -573,13 +607,34 @@ def run(tier):
     t0 = time.time()
     minimized = dict(common.parallel(_minimize_job, jobs)) if jobs else {}
     report.extra["phase_s.minimise_witnesses"] = round(time.time() - t0, 1)
+    # Every reported key must reproduce in a fresh process through the plain case protocol
+    # (what --replay does).  A report whose classification depended on the heap layout of the
+    # long-lived --fork process is re-keyed to what the fresh process shows.
+    final = {}
+    counts = {}
     for key, (sz, w) in sorted(best.items()):
         w = minimized.get(key, w)
-        w["calling_modes_seen"] = sorted(modes.get(key, ()))
         n = report.extra.pop("viol." + key, 1)
+        fkey = key
+        if not key.startswith("hang:"):
+            r = common.run_cases(exe_of[w["variant"]], [bytes.fromhex(w["payload_hex"])], env_extra=ENV_PLAIN)[0]
+            got = _result_key(r, w["label"])
+            if got is not None and got != key:
+                fkey = got
+                w = dict(w, first_seen_as=key,
+                         observed=observed_text(r, crash_key_ex(r, w["label"])[2]) if isinstance(r, Crash) else w["observed"])
+                modes.setdefault(fkey, set()).update(modes.get(key, ()))
+            elif got is None:
+                w = dict(w, fresh_process="no report in a fresh process; seen only in the long-lived --fork driver")
+        counts[fkey] = counts.get(fkey, 0) + n
+        if fkey not in final or (fkey == key and "first_seen_as" in final[fkey]) or \
+                (w["msg_len"] < final[fkey]["msg_len"] and ("first_seen_as" in final[fkey]) == ("first_seen_as" in w)):
+            final[fkey] = w
+    for key, w in sorted(final.items()):
+        w["calling_modes_seen"] = sorted(modes.get(key, ()))
         report.violation(key, w)
-        report.violations[key]["count"] = n
-    report.extra["violation_modes"] = {k: sorted(v) for k, v in modes.items()}
+        report.violations[key]["count"] = counts[key]
+    report.extra["violation_modes"] = {k: sorted(v) for k, v in modes.items() if k in final}
 
     # essential monitors must have seen something
     for name in VALIDATORS:
